@@ -32,6 +32,10 @@ def main():
             from .check_c12 import run
 
             sys.exit(run(a.tier))
+        if prop in ("C02", "C08"):
+            from .check_c02 import run
+
+            sys.exit(run(prop, a.tier))
         if prop == "C03":
             from .check_c03 import run
 
